@@ -143,6 +143,13 @@ namespace ValueFlow
         return nullptr;
     }
 
+    // the expression has an unsigned integer type that is as wide as MathLib::bigint
+    static bool isUnsigned64(const Token* tok, const Settings& settings)
+    {
+        return astIsUnsigned(tok) && tok->valueType()->pointer == 0 &&
+               tok->valueType()->getSizeOf(settings, ValueType::Accuracy::ExactOrZero, ValueType::SizeOf::Pointer) == sizeof(MathLib::bigint);
+    }
+
     static bool isNumeric(const Value& value) {
         return value.isIntValue() || value.isFloatValue();
     }
@@ -604,6 +611,13 @@ namespace ValueFlow
                             }
                         } else {
                             auto val = calculate(parent->str(), intValue1(), intValue2(), &error);
+                            // operands whose common type is an unsigned type of 64 bits are compared as unsigned values
+                            if (parent->isComparisonOp() &&
+                                (isUnsigned64(parent->astOperand1(), settings) || isUnsigned64(parent->astOperand2(), settings)))
+                                val = static_cast<MathLib::bigint>(calculate(parent->str(),
+                                                                             static_cast<MathLib::biguint>(intValue1()),
+                                                                             static_cast<MathLib::biguint>(intValue2()),
+                                                                             &error));
                             if (result.isFloatValue()) {
                                 result.floatValue = static_cast<double>(val);
                             } else {
